@@ -148,9 +148,15 @@ def worker():
     json.dump(res, open(sys.argv[2], "w"), default=str)
 
 
-def main():
+def main(which="C13"):
     import random
-    chk = C.Check("C13", "model_checking")
+    # C19 lists set_ncomp among its editing calls: the same refinement replay runs as the second stage of C19 (tables, groups,
+    # structure and simulation after set_ncomp sequences on cells that already carry channels, parameters and groups)
+    prev = None
+    evp = os.path.join(C.EVID, which + ".json")
+    if which == "C19" and os.environ.get("VERIF_MERGE_EVIDENCE") == "1" and os.path.exists(evp):
+        prev = json.load(open(evp))
+    chk = C.Check(which, "model_checking")
     quick = C.tier() == "quick"
     rnd = random.Random(C.seed())
     sts = []
@@ -212,6 +218,20 @@ def main():
     for s in sts[1:4]:
         chk.sample({"parents": s["parents"], "calls": s["calls"], "ncomp": s["ncomp"], "groups": s["groups"]})
     chk.assume("TLC", "groups are created through branch views (branch membership is what the property preserves)")
+    if prev:
+        cov = prev["coverage"]
+        chk.set("set_ncomp_part", {k: chk.cov.get(k) for k in ("call_sequences_replayed", "simulation_comparisons", "swc_sequences")})
+        for k, v in cov.items():
+            if k in ("states", "transitions", "traces_validated_against_impl", "evaluations"):
+                chk.cov[k] = int(chk.cov.get(k, 0)) + int(v)
+            elif k not in ("samples", "violation_signatures"):
+                chk.cov[k] = v if k != "rule" else v + " || set_ncomp (SetNcomp.tla): " + chk.cov.get("rule", "")
+        chk.violations += prev.get("violations", 0)
+        for fid, cnt in (cov.get("known_findings_hit") or {}).items():
+            chk.known[fid] = chk.known.get(fid, 0) + cnt
+        for a in prev.get("assumptions", []):
+            chk.assume(a)
+        return chk.finish(extra_wall=float(prev.get("wall_s", 0.0)))
     return chk.finish()
 
 
@@ -219,4 +239,4 @@ if __name__ == "__main__":
     if len(sys.argv) == 3:
         worker()
     else:
-        C.main_wrapper(main)
+        C.main_wrapper(lambda: main(sys.argv[1] if len(sys.argv) == 2 else "C13"))
